@@ -74,6 +74,15 @@ CANON_PARAMS = {
 }
 
 
+# stage functions the rules look for as call events: kept as calls even when a refactoring makes their body straight-line
+STAGE_ANCHORS = {
+    'boolean::boolean_operation', 'boolean::trivial_result', 'boolean::fill_queue::fill_queue', 'boolean::fill_queue::process_polygon',
+    'boolean::subdivide_segments::subdivide', 'boolean::compute_fields::compute_fields', 'boolean::possible_intersection::possible_intersection',
+    'boolean::divide_segment::divide_segment', 'boolean::connect_edges::connect_edges', 'boolean::connect_edges::order_events',
+    'boolean::connect_edges::get_next_pos', 'boolean::connect_edges::mark_as_processed',
+    'boolean::connect_edges::Contour::<F>::initialize_from_context',
+}
+
 NONE = ('agg', 'adt', 'None', (), (), 'std::option::Option')
 
 FOREIGN_ENUMS = {
@@ -226,7 +235,7 @@ class Explorer:
                     if self.purity is not None and self.purity.is_pure(cn, t):
                         continue
                     cb = self.facts.bodies.get(cn)
-                    if cb is not None and depth < INLINE_DEPTH and is_straight_line(cb) and not any(cn.startswith(o) for o in self.opaque):
+                    if cb is not None and depth < INLINE_DEPTH and is_straight_line(cb) and cn not in STAGE_ANCHORS and not any(cn.startswith(o) for o in self.opaque):
                         scan(cb, sorted(cb.reachable_blocks()), depth + 1)
                         continue
                     wipe_all[0] = True
@@ -632,7 +641,7 @@ class Explorer:
                 ev['moved'] = True
                 ev['inlined'] = True     # effects are modelled exactly: no wipe of pointer memory
         # 2. straight-line local callees are inlined
-        if ret is None and self.inline and fr.depth < INLINE_DEPTH and not any(name.startswith(o) for o in self.opaque):
+        if ret is None and self.inline and fr.depth < INLINE_DEPTH and name not in STAGE_ANCHORS and not any(name.startswith(o) for o in self.opaque):
             cb = self.facts.bodies.get(name)
             if cb is not None and is_straight_line(cb):
                 res = self.inline_call(st, fr, cb, args)
